@@ -7,7 +7,7 @@
 //! ledger is race-free: at every DATA frame, bytes received on the stream must
 //! be <= the credit granted so far; every DATA <= 16384 (its max frame size).
 //!
-//! usage: c14bb <h1|h2> <backend initial window> <body bytes> <requests> [client initial window]
+//! usage: c14bb <h1|h2> <backend initial window> <body bytes> <requests> [client initial window] [tightconn]
 //!   h1: HTTP/1.1 keep-alive client on a plain listener
 //!   h2: raw H2 client over TLS that announces SETTINGS_INITIAL_WINDOW_SIZE = client window
 //! output: `obs ...`, `viol over-stream-window|over-connection-window|over-max-frame|keepalive-broken ...`
@@ -32,7 +32,7 @@ use sozu_command_lib::{
 
 const CONN_GRANT: u32 = 1 << 24;
 
-fn backend(listener: TcpListener, w: u32, tx: mpsc::Sender<String>) {
+fn backend(listener: TcpListener, w: u32, tight_conn: bool, tx: mpsc::Sender<String>) {
     let deadline = Instant::now() + Duration::from_secs(40);
     while Instant::now() < deadline {
         let Ok((mut s, _)) = listener.accept() else { return };
@@ -53,13 +53,16 @@ fn backend(listener: TcpListener, w: u32, tx: mpsc::Sender<String>) {
         }
         acc.drain(..24);
         let _ = s.write_all(&settings(&[(4, w)]));
-        let _ = s.write_all(&frame(T_WU, 0, 0, &CONN_GRANT.to_be_bytes()));
+        // tight_conn: the connection window stays at its 65535 default and is replenished only after silence
+        if !tight_conn {
+            let _ = s.write_all(&frame(T_WU, 0, 0, &CONN_GRANT.to_be_bytes()));
+        }
         let mut acked = false;
         let mut credit: HashMap<u32, i64> = HashMap::new();
         let mut sent: HashMap<u32, i64> = HashMap::new();
         let mut open: Vec<u32> = vec![];
         let mut flagged: HashMap<u32, bool> = HashMap::new();
-        let (credit_conn, mut sent_conn) = (65535i64 + CONN_GRANT as i64, 0i64);
+        let (mut credit_conn, mut sent_conn) = (65535i64 + if tight_conn { 0 } else { CONN_GRANT as i64 }, 0i64);
         let mut idle_rounds = 0;
         'conn: loop {
             let (frames, used) = parse_frames(&acc);
@@ -135,6 +138,10 @@ fn backend(listener: TcpListener, w: u32, tx: mpsc::Sender<String>) {
                     idle_rounds += 1;
                     if idle_rounds > 100 {
                         break;
+                    }
+                    if tight_conn && sent_conn >= credit_conn && !open.is_empty() {
+                        let _ = s.write_all(&frame(T_WU, 0, 0, &65535u32.to_be_bytes()));
+                        credit_conn += 65535;
                     }
                     for sid in &open {
                         if sent[sid] >= credit[sid] {
@@ -264,6 +271,7 @@ fn main() {
     let body: usize = args.get(3).and_then(|x| x.parse().ok()).unwrap_or(5000);
     let nreq: usize = args.get(4).and_then(|x| x.parse().ok()).unwrap_or(2);
     let cw: u32 = args.get(5).and_then(|x| x.parse().ok()).unwrap_or(65535);
+    let tight_conn = args.get(6).map(|x| x == "tightconn").unwrap_or(false);
     let log_level = std::env::var("C14BB_LOG").unwrap_or_default();
     if log_level.is_empty() {
         let _ = sozu_command_lib::logging::setup_logging("file:///dev/null", false, None, None, None, "error", "C14BB");
@@ -276,7 +284,7 @@ fn main() {
     let back: SocketAddr = back_listener.local_addr().unwrap();
     let (tx, rx) = mpsc::channel::<String>();
     let txb = tx.clone();
-    std::thread::spawn(move || backend(back_listener, w, txb));
+    std::thread::spawn(move || backend(back_listener, w, tight_conn, txb));
 
     let mut wk = start_worker();
     let ok = if mode == "h2" {
